@@ -5,6 +5,11 @@ from pyvc.sorts import *  # noqa
 from pyvc.state import *  # noqa
 
 EMPTY_STR = strlit('')
+
+
+def is_none_literal(v):
+  return z3.is_app(v) and v.decl().eq(VNone.decl())
+
 obj_truth = z3.Function('obj_truth', I, B)          # user-defined __bool__ of opaque objects
 user_eq = z3.Function('user_eq', I, I, B)           # user-defined __eq__ on opaque objects
 KIND_NAMES = {'POSITIONAL_ONLY': PO, 'POSITIONAL_OR_KEYWORD': PK, 'VAR_POSITIONAL': VP,
@@ -12,7 +17,7 @@ KIND_NAMES = {'POSITIONAL_ONLY': PO, 'POSITIONAL_OR_KEYWORD': PK, 'VAR_POSITIONA
 DICTLIKE = ('dict', 'set', 'frozenset')
 SEQLIKE = ('list', 'tuple')
 TYPE_NAMES = {'int', 'str', 'bool', 'slice', 'dict', 'list', 'tuple', 'set', 'frozenset',
-              'object', 'type', 'float', 'bytes'}
+              'object', 'type', 'float', 'bytes', 'Sequence', 'Dict'}
 
 # fields that are read raw (instance __dict__) even on a Buildable
 BUILDABLE_INTERNALS = {'__fn_or_cls__', '__arguments__', '__argument_history__',
@@ -69,6 +74,14 @@ class ExprMixin:
       return sig_n(v.g) > 0
     if isinstance(v, Abstract):
       return z3.BoolVal(True)
+    vs = z3.simplify(v)
+    if z3.is_app(vs) and vs.decl().eq(VBool):
+      return vs.arg(0)
+    # a value known to be a bool needs no case analysis over the other value classes
+    if not z3.is_true(z3.simplify(is_VBool(v))) and not self.feasible(st, z3.Not(is_VBool(v))):
+      return bval(v)
+    if is_none_literal(vs):
+      return z3.BoolVal(False)
     h = st.heap
     r = ref(v)
     c = h.cls(r)
@@ -531,9 +544,32 @@ class ExprMixin:
     if name == 'parameters':
       # inspect.Signature.parameters of a Signature object
       return [Res(st, ParamMap(r))]
-    meths = self.method_names()
-    if name in meths or name in self.BUILTIN_METHODS:
-      return [Res(st, BoundMethod(v, name))]
+    from pyvc import contract as _C
+    cands = [k for k in _C.BY_METHOD.get(name, []) if '.' in k.qualname and not k.abstract]
+    if cands:
+      # a method only if the receiver can be an instance of the class that defines it
+      conds = []
+      for k in cands:
+        cn = k.qualname.split('.')[0]
+        conds.append(cls_in(h.cls(r), cn) if cn in CLASSES else z3.BoolVal(True))
+      out = []
+      for st2, side in self.fork(st, z3.Or(conds)):
+        if side:
+          out.append(Res(st2, BoundMethod(v, name)))
+        else:
+          out.append(Res(st2, st2.heap.fld(r, name)))
+      return out
+    if name in self.BUILTIN_METHODS:
+      # a builtin container method only if the receiver can be a builtin container
+      c = h.cls(r)
+      cont = z3.Or([cls_in(c, n) for n in ('dict', 'list', 'tuple', 'set', 'frozenset', 'slice')])
+      out = []
+      for st2, side in self.fork(st, cont):
+        if side:
+          out.append(Res(st2, BoundMethod(v, name)))
+        else:
+          out.append(Res(st2, st2.heap.fld(r, name)))
+      return out
     if name in BUILDABLE_INTERNALS or self.raw_attr_ok(name):
       return [Res(st, h.fld(r, name))]
     # a Buildable answers unknown names through __getattr__
